@@ -353,20 +353,4 @@ theorem flatMap_congr' {α β : Type} (l : List α) (f g : α → List β) (h : 
     simp only [List.flatMap_cons, h x (by simp), ih (fun y hy => h y (by simp [hy]))]
 
 
-/-! ### bounded exhaustive check of the minimizer (used by `C10_minimizer_partial`) -/
-
-/-- all key lists of length `n` over the values `0,1,2` -/
-def keyLists : Nat → List (List Int)
-  | 0 => [[]]
-  | n + 1 => (keyLists n).flatMap fun l => [0 :: l, 1 :: l, 2 :: l]
-
-/-- the specification: leftmost minimum of every window of width `w` -/
-def windowMinima (ord : List Int) (w : Nat) : List (Option Nat) :=
-  (List.range (ord.length - (w - 1))).map fun i => leftmostArgmin ord i w
-
-def minimizeAgrees (ord : List Int) (w : Nat) : Bool :=
-  match minimizeAll ord w with
-  | .ok ps => ps.map some == windowMinima ord w
-  | .error _ => false
-
 end BiotiteModel.C10
